@@ -41,6 +41,7 @@ Fixpoint outcomes_eqb (a b : list outcome) : bool :=
 Inductive case :=
   | CGet (deep : bool) (e : est) (impl : list kv)           (* e.get_params(deep) *)
   | CSet (e : est) (kvs : list kv) (impl : option est)      (* e.set_params( **kvs ); None = raised *)
+  | CSetGet (e : est) (d : list kv) (impl : option est)     (* d = e.get_params(True); e.set_params( **d ) *)
   | CClone (e : est) (impl : est)                           (* clone(e), read back *)
   | CHist (e : est) (evs : list event) (impl : list outcome) (impl_fitted : bool)
   | CNames (e : est) (dunder : list string) (accepted : bool).
@@ -52,6 +53,14 @@ Definition check (c : case) : bool :=
       match set_params sk_meta e kvs, impl with
       | Ok a, Some b => est_eqb a b
       | Err, None => true
+      | _, _ => false
+      end
+  | CSetGet e d impl =>
+      (* the tree satisfies the hypothesis of C04_set_get_id, the real dict is the model's, and the
+         real call on the real dict gives what the model gives (the theorem says: e itself) *)
+      wf sk_meta e && dict_eqb (get_params sk_meta true e) d &&
+      match set_params sk_meta e d, impl with
+      | Ok a, Some b => est_eqb a b && est_eqb a e
       | _, _ => false
       end
   | CClone e impl => est_eqb (clone_est e) impl
